@@ -25,7 +25,7 @@ MAT_ROUTES = ["Quaternion.to_DCM", "Quaternion.to_DCM[order=S]", "QuaternionArra
               "DCM.from_quaternion", "DCM.from_quaternion[batch]", "DCM.from_q", "q2R.v1", "q2R.v2",
               "q2R.v1[batch]", "q2R.v2[batch]"]
 OBJ_ROUTES = ["normalize()->routes"]
-PROD_ROUTES = ["Quaternion.product", "Quaternion.__mul__", "Quaternion.__matmul__", "orientation.q_prod"]
+PROD_ROUTES = ["Quaternion.product", "Quaternion.__mul__", "Quaternion.__matmul__", "orientation.q_prod", "QuaternionArray.rotate_by"]
 ROT_ROUTES = ["Quaternion.rotate(3,)", "Quaternion.rotate(3,N)", "orientation.q_rot"]
 ROUTES = MAT_ROUTES + PROD_ROUTES + ROT_ROUTES + OBJ_ROUTES
 REGIONS = {r: 40 for r in gens.UQ_REGIONS + ["antipodal_pair"]}
@@ -55,7 +55,7 @@ def generate(rng, tier, shard, nshards):
             p /= np.linalg.norm(p)
         else:
             q = gens.unit_quat(rng, reg)
-            p = gens.unit_quat(rng, reg if rng.random() < (0.5 if reg in ("axis_aligned", "real") else 0.3) else "generic")
+            p = gens.unit_quat(rng, reg if rng.random() < (0.5 if reg in ("axis_aligned", "real") else (0.9 if reg == "octahedral" else 0.3)) else "generic")
         v = gens.vec3(rng, 1e-6, 1e6)
         V = rng.standard_normal((3, int(rng.integers(1, 6)))) * gens.logu(rng, 1e-3, 1e3)
         yield Case("all", reg, p=p, q=q, v=v, V=V)
@@ -127,6 +127,16 @@ def check(case, ctx):
         "Quaternion.__matmul__": lambda: P @ Qo,
         "orientation.q_prod": lambda: o.q_prod(p.copy(), q.copy()),
     }
+    # the array class multiplies through rotate_by (rows q_i -> p q_i, renormalised): as rotations, R(row) = R(p) R(q_i); the rows stay unit
+    out = call(lambda: np.asarray(ahrs.QuaternionArray(np.array([q, p, rq.qconj(q), -q])).rotate_by(p.copy()), float))
+    if ctx.returned(out, route="QuaternionArray.rotate_by"):
+        rb = as_real_array(ctx, out.value, (4, 4), route="QuaternionArray.rotate_by", what="rotated rows")
+        if rb is not None:
+            ctx.le("rotate_by rows are unit quaternions", float(np.abs(np.linalg.norm(rb, axis=1) - 1).max()), 1e-14, {"rows": rb}, route="QuaternionArray.rotate_by")
+            refs = [rq.qmul(p, x) for x in (q, p, rq.qconj(q), -q)]
+            if np.all(np.abs(np.linalg.norm(rb, axis=1) - 1) < 1e-6):
+                ctx.le("R(rotate_by(p) row i) = R(p) R(q_i)", max(np.abs(rq.refR(rb[i] / np.linalg.norm(rb[i])) - rq.refR(refs[i] / np.linalg.norm(refs[i]))).max() for i in range(4)), 4 * TOL_R,
+                       {"rows": rb}, route="QuaternionArray.rotate_by")
     for name, fn in prods.items():
         out = call(fn)
         if not ctx.returned(out, route=name):
